@@ -337,6 +337,24 @@ class ApplyMixin:
         """call of a repository function: by contract when it has one, else inline (small helpers / property getters)."""
         key = fi.key
         c = self.side.contracts.get(key)
+        root_c = getattr(getattr(fr, "outer_root", fr), "contract", None) or fr.contract
+        opaque = (getattr(root_c, "opts", None) or {}).get("abstract_calls", []) if root_c is not None else []
+        if c is not None and fr.kind == "code" and key.split("::")[-1].split(".")[-1] in opaque:
+            # the caller's contract does not depend on what this callee computes: over-approximate the call (any result of the
+            # declared sort, the callee's modifies havocked, any exception) instead of demanding its preconditions
+            fr.abstracted.append({"line": getattr(node, "lineno", 0), "stmt": (ast.unparse(node)[:120] if node is not None else key),
+                                  "why": f"call of {key.split('::')[-1]} abstracted (abstract_calls)", "hash": ""})
+            if not self.exc_is_declared(fr, "*"):
+                raise Untranslatable("abstract_calls is only sound in a function that declares `raises *`")
+            s2 = st.copy()
+            fr.pending.append(Outcome("raise", s2, exc="Exception"))
+            for attr in c.modifies:
+                if attr == "*effects":
+                    st.eff = self.fresh("eff", z3.IntSort())
+                elif not self.is_write_once(attr, c):
+                    st.heap[attr] = self.fresh(f"H_{attr}", z3.ArraySort(self.voc.Val, self.voc.Val))
+            fr.callees.add(key + " (abstracted)")
+            return self.with_sort(self.fresh("res"), c.sorts.get("result", "any"))
         if c is not None and not (fr.fi is not None and False):
             return self.apply_contract(c, fi, args, kwargs, st, fr, node)
         if any("cached_method" in d for d in fi.decorators):
